@@ -8,6 +8,7 @@ import (
 	"errors"
 	"fmt"
 	"io"
+	"math"
 	"net"
 	"strings"
 	"sync"
@@ -237,6 +238,8 @@ func (t *Transport) readMessage(obj ProtocolObject, maxLen uint64) error {
 	}
 	if maxLen < minMessageSize {
 		maxLen = minMessageSize
+	} else if maxLen > math.MaxInt64-8 {
+		maxLen = math.MaxInt64 - 8 // the reader's bound is an int64
 	}
 	d := types.NewDecoder(io.LimitedReader{R: t.conn, N: int64(8 + maxLen)})
 	msgSize := d.ReadUint64()
